@@ -199,7 +199,7 @@ def improve_node_matrix_constraint(pomdp, V, node, *, solver=Solvers.scipy_lp, s
     return Result(
         epsilon=epsilon,
         # HACK: the not isclose check is ensure we're not just a hair above 0
-        improved=epsilon>0 and not np.isclose(epsilon, 0),
+        improved=epsilon>0 and not np.isclose(epsilon, 0, atol=1e-6), # (the LP solver's feasibility tolerance is 1e-7)
         action_strategy=action_strategy,
         observation_strategy=observation_strategy,
         solver_result=result,
